@@ -15,6 +15,7 @@ const BIG_OPS: &[&str] = &[
 const LAWS: &[&str] = &["law_rot_compose", "law_rot_2n", "law_rot_n", "law_aut_compose", "law_aut_inverse", "law_switch_updown"];
 
 fn gen_small(rng: &mut Rng, n: usize, cols: usize, size: usize, cap: usize, bits: usize) -> VBuf {
+    let cap = if cap == size && rng.below(3) == 0 { size + 1 + rng.below(2) as usize } else { cap };
     let mut v = VBuf::new(n, cols, size, cap);
     let cls = *rng.pick(&[0u8, 0, 0, 1, 2, 3]);
     let mut r2 = rng.clone();
@@ -35,6 +36,8 @@ fn gen_small(rng: &mut Rng, n: usize, cols: usize, size: usize, cap: usize, bits
 }
 
 fn gen_big(rng: &mut Rng, n: usize, cols: usize, size: usize, cap: usize) -> BigBuf {
+    // one buffer in three has spare capacity (size < max_size) filled with data that every operation must ignore
+    let cap = if cap == size && rng.below(3) == 0 { size + 1 + rng.below(2) as usize } else { cap };
     let mut v = BigBuf::new(n, cols, size, cap);
     let bits = if BIG_BYTES == 8 { 62 } else { 120 };
     let mut r2 = rng.clone();
@@ -156,7 +159,7 @@ fn one_case(module: &Module<BE>, op: &str, n: usize, k_in: i64, rng: &mut Rng, r
             }
             "law_rot_2n" => {
                 module.vec_znx_rotate(2 * n as i64, &mut x.view(), 0, &a.rview(), 0);
-                x.snapshot() == a.snapshot()
+                x.snapshot()[..] == a.snapshot()[..n * asz * 8]
             }
             "law_rot_n" => {
                 module.vec_znx_rotate(n as i64, &mut x.view(), 0, &a.rview(), 0);
@@ -179,14 +182,14 @@ fn one_case(module: &Module<BE>, op: &str, n: usize, k_in: i64, rng: &mut Rng, r
                 module.vec_znx_automorphism(gi, &mut y.view(), 0, &x.rview(), 0);
                 // the generator convention: galois_element(g) = sign(g) * 5^|g| mod 2N
                 let want = if genr == 0 { 1 } else { (pow_mod(5, genr.unsigned_abs(), 2 * n as u64) as i64) * genr.signum() };
-                y.snapshot() == a.snapshot() && g == want
+                y.snapshot()[..] == a.snapshot()[..n * asz * 8] && g == want
             }
             "law_switch_updown" => {
                 let ratio = 1usize << rng.usize_in(1, 4);
                 let mut up = VBuf::new(n * ratio, 1, asz, asz);
                 module.vec_znx_switch_ring(&mut up.view(), 0, &a.rview(), 0);
                 module.vec_znx_switch_ring(&mut x.view(), 0, &up.rview(), 0);
-                x.snapshot() == a.snapshot()
+                x.snapshot()[..] == a.snapshot()[..n * asz * 8]
             }
             _ => unreachable!(),
         });
